@@ -17,7 +17,7 @@ package providers
 //@ stable OIDCProvider.* ProviderData.Verifier ProviderData.AllowedGroups ProviderData.EmailClaim ProviderData.UserClaim
 //@ stable ProviderData.GroupsClaim ProviderData.AllowUnverifiedEmail ProviderData.ProfileURL ProviderData.SkipClaimsFromProfileURL
 //@ stable ProviderData.CodeChallengeMethod ProviderData.LoginURL ProviderData.RedeemURL ProviderData.ClientID
-//@ nonnil OIDCProvider.ProviderData
+//@ nonnil OIDCProvider.ProviderData KeycloakOIDCProvider.OIDCProvider
 //@ stable MicrosoftEntraIDProvider.* KeycloakOIDCProvider.OIDCProvider ADFSProvider.OIDCProvider ADFSProvider.oidcRefreshFunc
 //@ stable GitLabProvider.OIDCProvider GitLabProvider.oidcRefreshFunc
 
@@ -48,6 +48,28 @@ package providers
 //@ loop 0 invariant[exactly-the-groups-so-far] p.AllowedGroups != nil && rangeindex >= -1 && rangeindex < len(groups)
 //@     && (forall g string :: inmap(p.AllowedGroups, g) <==> exists j int :: 0 <= j && j <= rangeindex && groups[j] == g)
 //@ ensures[exactly-the-configured-groups] forall g string :: inmap(p.AllowedGroups, g) <==> exists j int :: 0 <= j && j < len(groups) && groups[j] == g
+
+//@ func NewKeycloakOIDCProvider
+//@ safety
+//@ prop C08 C19
+//@ ensures[nonnil:wraps-an-oidc-provider] result != nil && result.OIDCProvider != nil && result.OIDCProvider == ret(NewOIDCProvider)
+//@ at call addAllowedRoles assert[roles-from-the-options-onto-the-provider-being-built] arg(addAllowedRoles, 1) == opts.KeycloakConfig.Roles
+//@     && arg(NewOIDCProvider, 0) == p
+//@ prop C19
+//@ scan[nonnil:keycloak-oidc-providers-allocated-by-the-constructor] alloc-of providers.KeycloakOIDCProvider providers.NewKeycloakOIDCProvider
+
+// Keycloak roles are ADDED to the allowed set ("role:" + name); the groups allowed before stay allowed — and an allowed set
+// that was not empty does not become empty (an empty set means "everybody")
+//@ func (*KeycloakOIDCProvider).addAllowedRoles
+//@ safety
+//@ prop C08
+//@ loop 0 invariant[groups-kept-roles-so-far-added] rangeindex >= -1 && rangeindex < len(roles) && p.AllowedGroups != nil
+//@     && (old(p.AllowedGroups) != nil ==> p.AllowedGroups == old(p.AllowedGroups))
+//@     && (forall g string :: old(inmap(p.AllowedGroups, g)) ==> inmap(p.AllowedGroups, g))
+//@     && (forall j int :: 0 <= j && j <= rangeindex ==> inmap(p.AllowedGroups, "role:" + roles[j]))
+//@ ensures[earlier-allowed-groups-stay-allowed] forall g string :: old(inmap(p.AllowedGroups, g)) ==> inmap(p.AllowedGroups, g)
+//@ ensures[every-role-is-allowed-under-its-prefix] forall j int :: 0 <= j && j < len(roles) ==> inmap(p.AllowedGroups, "role:" + roles[j])
+//@ ensures[same-map-when-there-was-one] old(p.AllowedGroups) != nil ==> p.AllowedGroups == old(p.AllowedGroups)
 
 // ------------------------------------------------------------------ C04 / C14: sessions only from verified ID tokens
 //@ func (*ProviderData).verifyIDToken
@@ -289,3 +311,31 @@ package providers
 //@ fresh
 //@ prop C05 C19
 //@ ensures[a-map-of-its-own-for-every-login] result != nil
+
+// ------------------------------------------------------------------ C14 / C04: Azure (legacy provider): no claims, and no session at redemption,
+// from tokens the configured verifier rejected
+//@ func (*AzureProvider).verifySessionToken
+//@ prop C14 C04
+//@ at call Verify#0 assert[the-id-token-first] recv(Verify#0) == p.Verifier && arg(Verify#0, 1) == session.IDToken && session.IDToken != ""
+//@ at call Verify#1 assert[then-the-access-token] recv(Verify#1) == p.Verifier && arg(Verify#1, 1) == session.AccessToken && ret1(Verify#0) != nil
+//@ at call Verify#2 assert[the-access-token-when-there-is-no-id-token] recv(Verify#2) == p.Verifier && arg(Verify#2, 1) == session.AccessToken
+//@     && session.IDToken == ""
+//@ ensures[accepted-only-if-one-of-the-tokens-verified] ret0 == nil && old(p.Verifier) != nil ==> (called(Verify#0) && ret1(Verify#0) == nil)
+//@     || (called(Verify#1) && ret1(Verify#1) == nil) || (called(Verify#2) && ret1(Verify#2) == nil)
+
+//@ func (*AzureProvider).extractClaimsIntoSession
+//@ prop C14 C04
+//@ ensures[claims-only-from-verified-tokens] called(buildSessionFromClaims#0) ==> called(verifySessionToken) && ret(verifySessionToken) == nil
+//@     && arg(verifySessionToken, 2) == session
+//@ ensures[unverifiable-tokens-are-an-error] called(verifySessionToken) && ret(verifySessionToken) != nil ==> ret0 != nil
+//@     && !called(buildSessionFromClaims#0) && !called(buildSessionFromClaims#1)
+//@ ensures[unreadable-claims-are-an-error] called(buildSessionFromClaims#1) && ret1(buildSessionFromClaims#1) != nil ==> ret0 != nil
+
+//@ func (*AzureProvider).Redeem
+//@ prop C14 C04
+//@ ensures[token-endpoint-failure-gives-no-session] called(UnmarshalInto) && ret(UnmarshalInto) != nil ==> ret0 == nil && ret1 != nil
+//@     && !called(extractClaimsIntoSession)
+//@ ensures[unverifiable-or-unreadable-tokens-give-no-session] called(extractClaimsIntoSession) && ret(extractClaimsIntoSession) != nil ==> ret0 == nil
+//@     && ret1 != nil
+//@ ensures[session-only-after-its-tokens-were-checked] ret1 == nil ==> called(extractClaimsIntoSession) && ret(extractClaimsIntoSession) == nil
+//@     && arg(extractClaimsIntoSession, 2) == ret0
